@@ -55,6 +55,12 @@ func calleeDisplayName(cc *ssa.CallCommon) string {
 		if g, ok := f.X.(*ssa.Global); ok {
 			return g.Name()
 		}
+		// load of a function-typed struct field: col.nullOrdering
+		if fa, ok := f.X.(*ssa.FieldAddr); ok {
+			if st, ok := fa.X.Type().Underlying().(*types.Pointer).Elem().Underlying().(*types.Struct); ok {
+				return st.Field(fa.Field).Name()
+			}
+		}
 	}
 	return cc.Value.Name()
 }
